@@ -43,13 +43,14 @@ def _limits():
     os.setsid()
 
 
-def run(cmd, cwd=None, timeout=600, limit=True, stdin=None):
+def run(cmd, cwd=None, timeout=600, limit=True, stdin=None, env=None):
     """Run a command; returns (rc, stdout, stderr, seconds). rc = -9 on timeout."""
     t0 = time.time()
     try:
         p = subprocess.Popen(cmd, cwd=cwd, stdout=subprocess.PIPE, stderr=subprocess.PIPE,
                              stdin=subprocess.PIPE if stdin is not None else subprocess.DEVNULL,
-                             preexec_fn=_limits if limit else os.setsid, text=True)
+                             preexec_fn=_limits if limit else os.setsid, text=True,
+                             env=dict(os.environ, **env) if env else None)
     except FileNotFoundError as e:
         raise Undecided('tool missing: %s' % e)
     try:
@@ -449,3 +450,32 @@ def auto_witness_text(text):
         return (m.group(0) + ' static_assert(std::is_same<decltype(%s), %sdecltype(%s)>::value, "R-AUTO witness");'
                 % (m.group(3), const, m.group(4).strip()))
     return '#include <type_traits>\n' + re.sub(r'((?:const\s+)?)auto(\s+)(\w+)\s*=\s*([^;]+);', repl, text)
+
+
+def nth_clause(lines, o):
+    """Text of the contract clause an obligation belongs to: '<contract>.postcondition.N' is the N-th
+    __CPROVER_ensures of that contract (ordinal, not line based: CBMC's line for a macro-expanded
+    clause is not reliable)."""
+    import re as _re
+    m = _re.match(r'(.+)\.(postcondition|precondition)\.(\d+)$', o.get('id', ''))
+    if not m or not lines:
+        return None
+    name, kind, n = m.group(1), m.group(2), int(m.group(3))
+    key = '__CPROVER_ensures(' if kind == 'postcondition' else '__CPROVER_requires('
+    start = None
+    for i, l in enumerate(lines):
+        if _re.search(r'\b%s\(' % _re.escape(name), l) and not l.lstrip().startswith(('//', '#')):
+            start = i
+            break
+    if start is None:
+        return None
+    cnt = 0
+    for l in lines[start:]:
+        if l.startswith(key):
+            cnt += 1
+            if cnt == n:
+                return l.strip()
+        if l.startswith(';') or l.startswith('{') or l.rstrip().endswith(';') and not l.startswith('__CPROVER'):
+            if cnt:
+                break
+    return None
